@@ -1,4 +1,4 @@
-import Poulpy.Lemmas.Ckks
+import Poulpy.Lemmas.CkksValue
 /-!
 # C16 — the CKKS evaluator tracks precision metadata through any straight-line program
 
@@ -407,5 +407,110 @@ theorem mul_scale_consistent (env : Env) (dst a b : Ct) (q : MulP) (h : mulCtPar
 /-- the former counterexample (log_delta 32 / log_budget 124 against 40 / 116) -/
 example : mulCtParams env52 ⟨⟨0, 0⟩, 5⟩ ⟨⟨32, 124⟩, 3⟩ ⟨⟨40, 116⟩, 3⟩ = .ok ⟨76, 32, 164⟩ ∧
     164 + 76 = 124 + 116 := ⟨by rfl, by decide⟩
+
+/-! ## 7. plaintext-value semantics of the linear operations, modulo the core phase theorems (C02)
+
+A ciphertext with phase `t` (a torus element) and metadata `(δ, β)` decodes to `t · 2^β`.  C02 on main
+(`add_phase`, `sub_phase`, `negate_phase`, `rotate_phase`, `lsh_assign_phase_modulo_norm`, `rsh_phase`)
+gives the action of the core operations on phases: sum, negation, multiplication by `2^{±k}`, within explicit
+rounding terms.  The theorems below are about the CKKS layer: with the shift amounts it hands to the core
+and the metadata it announces, the value comes out right.  `t, u : R` range over an arbitrary commutative
+ring (exact torus representatives; the C02 error terms pass through these identities linearly). -/
+
+section Value
+variable {R : Type} [CommRing R]
+
+/-- add out of place: `dst` holds `ta·2^sa + tb·2^sb` (C02: `glwe_lsh`, `glwe_lsh_add`) and decodes to the sum of the values.
+For `sub` replace `+` by `-` (`glwe_lsh_sub`): same exponents. -/
+theorem add_value (env : Env) (dst a b d' : Ct) (h : addCtInto env dst a b = .ok d') (ta tb : R) :
+    (ta * 2 ^ (addShiftAB env dst a b).1 + tb * 2 ^ (addShiftAB env dst a b).2) * 2 ^ d'.md.logBudget
+      = ta * 2 ^ a.md.logBudget + tb * 2 ^ b.md.logBudget ∧
+    (ta * 2 ^ (addShiftAB env dst a b).1 - tb * 2 ^ (addShiftAB env dst a b).2) * 2 ^ d'.md.logBudget
+      = ta * 2 ^ a.md.logBudget - tb * 2 ^ b.md.logBudget := by
+  obtain ⟨h1, h2⟩ := addShiftAB_spec env dst a b d' h
+  rw [← h1, ← h2, pow_add, pow_add]
+  constructor <;> ring
+
+/-- the narrow-destination case of `corpus/C16/08`: budgets 280 > 229, destination of 5 limbs (260 bits) -/
+example : addCtInto env52 ⟨⟨0, 0⟩, 5⟩ ⟨⟨40, 280⟩, 7⟩ ⟨⟨40, 229⟩, 7⟩ = .ok ⟨⟨40, 220⟩, 5⟩ ∧
+    addShiftAB env52 ⟨⟨0, 0⟩, 5⟩ ⟨⟨40, 280⟩, 7⟩ ⟨⟨40, 229⟩, 7⟩ = (60, 9) := by decide
+
+/-- add / sub in place -/
+theorem add_assign_value (env : Env) (dst a d' : Ct) (h : addCtAssign env dst a = .ok d') (td ta : R) :
+    (td * 2 ^ (assignShiftDA dst a).1 + ta * 2 ^ (assignShiftDA dst a).2) * 2 ^ d'.md.logBudget
+      = td * 2 ^ dst.md.logBudget + ta * 2 ^ a.md.logBudget := by
+  obtain ⟨h1, h2⟩ := assignShiftDA_spec env dst a d' h
+  rw [← h1, ← h2, pow_add, pow_add]
+  ring
+
+example : addCtAssign env52 ⟨⟨30, 90⟩, 4⟩ ⟨⟨20, 8⟩, 4⟩ = .ok ⟨⟨20, 8⟩, 4⟩ ∧
+    assignShiftDA ⟨⟨30, 90⟩, 4⟩ ⟨⟨20, 8⟩, 4⟩ = (82, 0) := by decide
+
+/-- negate / rotate / conjugate (`bits = 0`) and multiplication by `2^bits` out of place: the phase is
+shifted by `bits + offset`, the value is multiplied by `2^bits` -/
+theorem unary_value (env : Env) (dst a d' : Ct) (h : shiftInto env dst a 0 = .ok d') (bits : Nat) (t : R) :
+    t * 2 ^ unaryShift env dst a bits * 2 ^ d'.md.logBudget = t * 2 ^ a.md.logBudget * 2 ^ bits := by
+  have := unaryShift_spec env dst a d' h bits
+  rw [pow_split t _ _ _ this, pow_add]; ring
+
+example : shiftInto env52 ⟨⟨0, 0⟩, 2⟩ ⟨⟨30, 100⟩, 3⟩ 0 = .ok ⟨⟨30, 74⟩, 2⟩ ∧
+    unaryShift env52 ⟨⟨0, 0⟩, 2⟩ ⟨⟨30, 100⟩, 3⟩ 5 = 31 := by decide
+
+/-- division by `2^bits`, both forms: (value of the result) · `2^bits` = value of the source -/
+theorem div_pow2_value (env : Env) (dst a d' : Ct) (bits : Nat) (t : R) :
+    (divPow2Into env dst a bits = .ok d' →
+      t * 2 ^ unaryShift env dst a 0 * 2 ^ d'.md.logBudget * 2 ^ bits = t * 2 ^ a.md.logBudget) ∧
+    (divPow2Assign env a bits = .ok d' → t * 2 ^ d'.md.logBudget * 2 ^ bits = t * 2 ^ a.md.logBudget) := by
+  constructor
+  · intro h
+    have := divPow2_spec env dst a d' bits h
+    rw [← this, pow_add, pow_add]; ring
+  · intro h
+    have : d'.md.logBudget + bits = a.md.logBudget := by
+      simp only [divPow2Assign] at h; grind
+    exact pow_split t _ _ _ this
+
+example : divPow2Into env52 ⟨⟨0, 0⟩, 4⟩ ⟨⟨30, 100⟩, 3⟩ 7 = .ok ⟨⟨37, 93⟩, 4⟩ := by decide
+
+/-- rescale, both forms: the value is unchanged (only head-room is given up) -/
+theorem rescale_value (env : Env) (dst src d' : Ct) (k : Nat) (t : R) :
+    (rescaleInto env dst k src = .ok d' →
+      t * 2 ^ rescaleIntoShift env dst k src * 2 ^ d'.md.logBudget = t * 2 ^ src.md.logBudget) ∧
+    (rescaleAssign env src k = .ok d' → t * 2 ^ k * 2 ^ d'.md.logBudget = t * 2 ^ src.md.logBudget) := by
+  constructor
+  · intro h; exact pow_split t _ _ _ (rescaleInto_spec env dst src d' k h)
+  · intro h
+    have : k + d'.md.logBudget = src.md.logBudget := by
+      simp only [rescaleAssign] at h; grind
+    exact pow_split t _ _ _ this
+
+example : rescaleInto env52 ⟨⟨0, 0⟩, 2⟩ 10 ⟨⟨30, 130⟩, 4⟩ = .ok ⟨⟨30, 74⟩, 2⟩ ∧
+    rescaleIntoShift env52 ⟨⟨0, 0⟩, 2⟩ 10 ⟨⟨30, 130⟩, 4⟩ = 56 := by decide
+
+/-- add / sub of a ZNX plaintext: the plaintext holds the integer `m·2^{log_delta}` at `max_k` bits
+(`u · 2^{max_k} = m · 2^{log_delta}`); after `vec_znx_rsh_add_into(offset)` its contribution `p`
+(`p · 2^{offset} = u`, C02 `rsh_phase`) decodes to `m`, up to the common factor `2^{log_delta}` -/
+theorem add_pt_value (env : Env) (dst d' : Ct) (pt : Pt) (h : ptAlign env dst pt = .ok d') (p u m : R)
+    (hshift : p * 2 ^ ptShift dst pt = u) (hpt : u * 2 ^ pt.maxK = m * 2 ^ pt.md.logDelta) :
+    p * 2 ^ d'.md.logBudget * 2 ^ pt.md.logDelta = m * 2 ^ pt.md.logDelta := by
+  have hs := ptShift_spec env dst d' pt h
+  rw [← hpt, ← hshift]
+  have : p * 2 ^ d'.md.logBudget * 2 ^ pt.md.logDelta = p * 2 ^ (d'.md.logBudget + pt.md.logDelta) := by
+    rw [pow_add]; ring
+  rw [this, ← hs, pow_add]; ring
+
+example : ptAlign env52 ⟨⟨30, 130⟩, 4⟩ ⟨⟨30, 10⟩, 52⟩ = .ok ⟨⟨30, 130⟩, 4⟩ ∧
+    ptShift ⟨⟨30, 130⟩, 4⟩ ⟨⟨30, 10⟩, 52⟩ = 108 := by decide
+
+/-- ct × ct: the tensor product (C05: phase of the product scaled by `2^{cnv_offset}`) decodes to the
+product of the values -/
+theorem mul_value (env : Env) (dst a b : Ct) (q : MulP) (h : mulCtParams env dst a b = .ok q) (ta tb : R) :
+    ta * tb * 2 ^ q.cnv * 2 ^ q.budget = (ta * 2 ^ a.md.logBudget) * (tb * 2 ^ b.md.logBudget) := by
+  have := mul_scale_consistent env dst a b q h
+  rw [pow_split (ta * tb) _ _ _ this, pow_add]; ring
+
+example : mulCtParams env52 ⟨⟨0, 0⟩, 5⟩ ⟨⟨32, 124⟩, 3⟩ ⟨⟨40, 116⟩, 3⟩ = .ok ⟨76, 32, 164⟩ := by rfl
+
+end Value
 
 end C16
